@@ -553,6 +553,10 @@ func (u *Unit) checkSectionAsserts(st *State, instr ssa.Instruction, name string
 			u.atHit = map[*Clause]bool{}
 		}
 		u.atHit[c] = true
+		if c.GhostTarget != "" {
+			u.ghostNew(st, c)
+			continue
+		}
 		env := u.newEnv(st)
 		env.acq = st.acq
 		g := u.evalBool(env, c.Expr)
@@ -569,6 +573,49 @@ func (u *Unit) specOfFrame(st *State) *FuncSpec {
 		return u.fs
 	}
 	return u.eng.spec.Funcs[relName(st.frame.fn)]
+}
+
+// ghostNew performs a ghost update: the named ghost heap entry becomes a fresh
+// value, of which the clause's relation (its defining observations) is assumed.
+// Trusted: such a value exists (ghost handles are names for mathematical
+// values; the relation only constrains observations of the new handle).
+func (u *Unit) ghostNew(st *State, c *Clause) { u.ghostNewEnv(st, c, nil) }
+
+func (u *Unit) ghostNewEnv(st *State, c *Clause, base *SpecEnv) {
+	t := c.GhostTarget
+	i := strings.Index(t, "(")
+	if i < 0 || !strings.HasSuffix(t, ")") {
+		u.unsupportedf("bad ghostnew target %q", t)
+		return
+	}
+	gh, ok := u.eng.spec.GhostHeaps[t[:i]]
+	if !ok {
+		u.unsupportedf("ghostnew: unknown ghost heap %q", t[:i])
+		return
+	}
+	se, err := parseSE(t[i+1 : len(t)-1])
+	if err != nil {
+		u.unsupportedf("ghostnew: %v", err)
+		return
+	}
+	env := u.newEnv(st)
+	env.acq = st.acq
+	if base != nil {
+		env.names = base.names
+	}
+	k := u.evalTerm(env, se)
+	hn := "G!" + gh.Name
+	u.noteHeap(hn, ArrSort(gh.Key, gh.Val))
+	h := u.heapGet(st.view(), hn, ArrSort(gh.Key, gh.Val))
+	nv := u.fresh("ghostnew."+gh.Name, gh.Val)
+	u.heapSet(st, hn, Store(h, k, nv))
+	env2 := u.newEnv(st)
+	env2.acq = st.acq
+	if base != nil {
+		env2.names = base.names
+	}
+	st.assume(u.evalBool(env2, c.Expr))
+	u.note("ghost update " + t + ": a value with the stated observations exists (trusted comprehension for ghost handles)")
 }
 
 // atSpec: the contract whose `at` clauses apply at the current program point:
